@@ -72,6 +72,28 @@ def rename(rng, s):
     return t
 
 
+def coverage_structure():
+    """one structure, part of every run, that holds what random draws may miss: all eight
+    combinations of dx / dy / rz as node constraints and as start and end links, and numbers whose
+    shortest decimal spelling needs 16 or 17 significant digits (so that any loss of digits in a
+    writer is visible in the round trip), tiny and huge magnitudes, negative zero-like values"""
+    s = G.Structure()
+    combos = [(a, b, c) for a in (True, False) for b in (True, False) for c in (True, False)]
+    xs = ["0.30000000000000004", "1234.5678901234567", "-0.1234567890123456", "1e-7", "123456789.12345679", "2.220446049250313e-16",
+          "7", "-1000000.0000000001", "0.1"]
+    for i in range(9):
+        s.nodes["c%d" % i] = (Fr(xs[i]), Fr(xs[(i + 3) % 9]) + i, combos[i % 8])
+    s.mats["m 17"] = (Fr("7850.000000000001"), Fr("21000000.000000004"), Fr("8100000.0000000009"), Fr("0.30000000000000004"), Fr("27500.000000000004"), Fr("43000"))
+    s.secs["s-17"] = (Fr("10.300000000000001"), Fr("171.00000000000003"), Fr("15.920000000000002"), Fr("34.200000000000003"), Fr("5.7900000000000009"))
+    for i in range(8):
+        s.bars.append({"id": "k%d" % i, "n1": "c%d" % i, "l1": combos[i], "n2": "c%d" % (i + 1), "l2": combos[(i + 3) % 8], "mat": "m 17", "sec": "s-17"})
+    s.loads = [{"kind": "c", "term": "fy", "local": True, "bar": "k0", "t": Fr("0.33333333333333331"), "v": Fr("-100.00000000000001")},
+               {"kind": "d", "term": "fx", "local": False, "bar": "k3", "t0": Fr("0.10000000000000001"), "v0": Fr("-0.30000000000000004"),
+                "t1": Fr("0.90000000000000002"), "v1": Fr("12345.678901234568")},
+               {"kind": "c", "term": "mz", "local": False, "bar": "k7", "t": Fr("1"), "v": Fr("1.0000000000000002e-30")}]
+    return s
+
+
 def expect(s, o):
     """the structure the text describes, field for field, against what the reader produced"""
     fails = []
@@ -145,9 +167,12 @@ def run(ctx):
     ctx.log("proof stage:", "ok (%d theorems)" % res["discharged"] if res["ok"] else "BROKEN at " + res["stage"] + " " + str(res.get("failed_at", "")))
     n_struct, n_lay, n_bad = (10, 4, 40) if ctx.tier == "quick" else (150, 8, 1500)
     items = []      # (kind, structure or None, text)
-    for i in range(n_struct):
-        s = G.gen_frame(rng, max_cells=1) if i % 2 else G.gen_solvable(rng)
-        if i % 3 == 0:
+    for i in range(n_struct + 1):
+        if i == n_struct:
+            s = coverage_structure()
+        else:
+            s = G.gen_frame(rng, max_cells=1) if i % 2 else G.gen_solvable(rng)
+        if i % 3 == 0 and i < n_struct:
             s = rename(rng, s)
         if i % 4 == 1:
             s.node_dof_notes = {k: (3 * j, 3 * j + 1, 3 * j + 2) for j, k in enumerate(s.nodes) if j % 2 == 0}
@@ -231,7 +256,7 @@ def run(ctx):
         "trusted_base": C.standard_trusted_base(res) + ["Go regexp engine, strconv.ParseFloat / %v formatting: modelled (backtracking matcher on the translated expressions; exact decimal value, half-ulp allowance), agreement checked on every text of every run"],
         "theorems": res.get("names", []), "traces_validated_against_impl": validated, "evaluations": len(items),
         "distinct_nontrivial": len({t for k, s, t in items if k == "layout"}), "distribution": dist, "round_trips": rt,
-        "rule": "structures (frames with all link kinds, solvable shapes; every third under other identifiers and names with spaces / dashes; some with equation numbers on node lines and '>> n' on bar lines) "
+        "rule": "structures (a fixed one holding all 8 constraint / link combinations and 16-17 digit numbers; frames with all link kinds, solvable shapes; every third under other identifiers and names with spaces / dashes; some with equation numbers on node lines and '>> n' on bar lines) "
                 "written in several layouts each: any section order, sections split in two, comments, blank lines, tabs and padding, CRLF, header counts, every spelling of the numbers (signs, leading / trailing "
                 "zeros, exponents); plus shipped examples and single-fault corruptions (also used by C14). Oracles: parsed structure = the structure the text was written from, field for field (numbers: "
                 "nearest float64 of the decimal); write -> read gives an equal structure. Stage A: the Coq reader model (translated regular expressions) reads the same text; verdict, error class and every "
